@@ -62,6 +62,13 @@ type mapObj struct {
 	sym        string
 	keys, vals []AV
 }
+
+// avChan is a channel of known capacity with concrete contents (Harness.Concrete).
+type avChan struct{ o *chanObj }
+type chanObj struct {
+	cap int
+	buf []AV
+}
 type avIter struct {
 	o   *mapObj
 	pos *int
@@ -149,6 +156,8 @@ func avString(a AV) string {
 		return "map"
 	case avIter:
 		return "iter"
+	case avChan:
+		return "chan"
 	case avStr:
 		if x.isC {
 			return fmt.Sprintf("%q", x.conc)
@@ -201,6 +210,9 @@ type Harness struct {
 	// slices of known length is computed, and functions handed to `go` or errgroup.Group.Go run to completion at
 	// that point (one sequential schedule), Group.Wait returning the first non-nil error they returned.
 	Concrete bool
+	// Complete (Concrete mode): before a non-inlined call returns, run this function value with these arguments —
+	// the completion callback of an asynchronous operation being invoked before the operation call returns.
+	Complete func(st *State, name string, args []AV) (fn AV, cbArgs []AV, ok bool)
 	// SelectChoice picks the ready case of the nth (0-based) execution of a select statement in a run;
 	// when nil, the choice atom named "select@<function>" is used for every execution.
 	SelectChoice func(st *State, name string, nth int) int
@@ -271,6 +283,7 @@ type Outcome struct {
 	Undecided string // non-empty: the run left the decidable fragment
 	NeedDyn   string // non-empty: the run needs an assumption for this configuration-only comparison
 	Stopped   bool   // the harness ended the run early (StopAfter)
+	Blocked   string // non-empty: the run blocks for ever here (Concrete channels: receive from an empty / send on a full channel)
 	cells     map[string]*cell
 	Steps     int
 }
@@ -498,6 +511,10 @@ func (h *Harness) RunState(w *World, st *State) (out *Outcome) {
 				out.Stopped = true
 				return
 			}
+			if b, ok := r.(blocked); ok {
+				out.Blocked = b.where
+				return
+			}
 			panic(r)
 		}
 	}()
@@ -532,6 +549,7 @@ func (h *Harness) RunState(w *World, st *State) (out *Outcome) {
 
 type goPanic struct{ v AV }
 type stopRun struct{}
+type blocked struct{ where string }
 type needDyn struct{ key string }
 
 var cfgLeaf = regexp.MustCompile(`recv\.config(\.[A-Za-z_][A-Za-z_0-9]*)+`)
@@ -882,7 +900,14 @@ func (m *machine) call(fn *ssa.Function, args []AV, free []AV) []AV {
 					m.invoke(fr, xx.Common(), args, label)
 				})
 			case *ssa.Send:
-				m.effect("send:"+avString(m.eval(fr, x.Chan)), []AV{m.eval(fr, x.X)})
+				ch, v := m.eval(fr, x.Chan), m.eval(fr, x.X)
+				m.effect("send:"+avString(ch), []AV{v})
+				if cc, ok := ch.(avChan); ok {
+					if len(cc.o.buf) >= cc.o.cap {
+						panic(blocked{"send on a channel without room and without a receiver at " + m.w.pos(x.Pos())})
+					}
+					cc.o.buf = append(cc.o.buf, v)
+				}
 			case *ssa.MapUpdate:
 				mp, k, v := m.eval(fr, x.Map), m.eval(fr, x.Key), m.eval(fr, x.Value)
 				m.effect("mapupdate:"+avString(mp), []AV{k, v})
@@ -1141,6 +1166,9 @@ func (m *machine) evalInstr(fr *frame, v ssa.Value) AV {
 		}
 		return i.val
 	case *ssa.MakeChan:
+		if n, ok := m.eval(fr, x.Size).(avInt); ok && m.h.Concrete && n.atom == "" {
+			return avChan{&chanObj{cap: int(n.conc)}}
+		}
 		return avRef{"chan"}
 	case *ssa.MakeMap:
 		if m.h.Concrete {
@@ -1324,6 +1352,20 @@ func (m *machine) invoke(fr *frame, cc *ssa.CallCommon, args []AV, label string)
 			return m.call(target, args, free)
 		}
 	}
+	if m.h.Complete != nil {
+		if f, cbArgs, ok := m.h.Complete(m.st, label, args); ok {
+			fv, isF := f.(avFunc)
+			if !isF || fv.fn == nil {
+				m.fail("the completion callback handed to %s is not a known function", label)
+			}
+			m.effect(label, args)
+			m.call(fv.fn, cbArgs, fv.bindings)
+			if rs, ok := m.oracle(label, args, res); ok {
+				return rs
+			}
+			return opaqueResults()
+		}
+	}
 	if rs, ok := m.oracle(label, args, res); ok {
 		m.effect(label, args)
 		return rs
@@ -1404,6 +1446,17 @@ func (m *machine) unop(fr *frame, x *ssa.UnOp) AV {
 		return avOpaque{"neg"}
 	case token.ARROW:
 		m.effect("recv:"+avString(a), nil)
+		if cc, ok := a.(avChan); ok {
+			if len(cc.o.buf) == 0 {
+				panic(blocked{"receive from a channel nothing was sent on at " + m.w.pos(x.Pos())})
+			}
+			v := cc.o.buf[0]
+			cc.o.buf = cc.o.buf[1:]
+			if x.CommaOk {
+				return avTuple{[]AV{v, avBool{true}}}
+			}
+			return v
+		}
 		if x.CommaOk {
 			return avTuple{[]AV{avOpaque{"recv"}, avOpaque{"recvok"}}}
 		}
@@ -1612,6 +1665,17 @@ func (m *machine) compare(a, b AV, x *ssa.BinOp) (int, bool) {
 				}
 				return 1, true
 			}
+		}
+		return 0, false
+	case avChan:
+		if r, isRef := b.(avRef); isRef && eqOnly && r.sym == "nil" {
+			return 1, true
+		}
+		if bc, isC := b.(avChan); isC && eqOnly {
+			if av.o == bc.o {
+				return 0, true
+			}
+			return 1, true
 		}
 		return 0, false
 	case avMap:
